@@ -2,10 +2,16 @@ module verifharness
 
 go 1.22
 
-require github.com/karagenc/socket.io-go v0.0.0
+require (
+	github.com/deckarep/golang-set/v2 v2.6.0
+	github.com/karagenc/socket.io-go v0.0.0
+	nhooyr.io/websocket v1.8.11
+)
 
 require (
 	github.com/fatih/color v1.17.0 // indirect
+	github.com/fatih/structs v1.1.0 // indirect
+	github.com/karagenc/yeast v0.1.1 // indirect
 	github.com/mattn/go-colorable v0.1.13 // indirect
 	github.com/mattn/go-isatty v0.0.20 // indirect
 	github.com/quic-go/qpack v0.4.0 // indirect
@@ -17,7 +23,9 @@ require (
 	golang.org/x/net v0.27.0 // indirect
 	golang.org/x/sys v0.22.0 // indirect
 	golang.org/x/text v0.16.0 // indirect
-	nhooyr.io/websocket v1.8.11 // indirect
 )
 
 replace github.com/karagenc/socket.io-go => /repo
+
+// C16: instrumented copy (lock tracing); only linked into the repo's mutexes under -tags sio_deadlock
+replace github.com/sasha-s/go-deadlock => ./third_party/go-deadlock
